@@ -58,7 +58,8 @@ fn check_validate_merge<S: Subject>(plan: &Plan, ctx: &Ctx, stats: &mut Stats, m
     let mut nontrivial = false;
     for step in &plan.steps {
         let ev = sim.step(step);
-        if affected(&ev).is_none() && !matches!(ev, Event::Probe { .. }) {
+        let changed = affected(&ev);
+        if changed.is_none() && !matches!(ev, Event::Probe { .. }) {
             continue;
         }
         // all pairs of current states + snapshots
@@ -68,6 +69,12 @@ fn check_validate_merge<S: Subject>(plan: &Plan, ctx: &Ctx, stats: &mut Stats, m
         }
         for i in 0..states.len() {
             for j in 0..i {
+                // only pairs involving the state that just changed are new
+                if let Some(c) = changed {
+                    if i != c && j != c {
+                        continue;
+                    }
+                }
                 let (a, ka, na) = &states[i];
                 let (b, kb, nb) = &states[j];
                 let ab = S::validate_merge(a, b);
